@@ -110,6 +110,9 @@ def quick():
     # on a clp that exists at some aligned indices only (what is removed at one index is not what is removed at another)
     c.append(Cfg("linked_label_sets_differ_zero_everywhere", (DS("ds1", T3, (0.0, 1.0, 2.0), megacomplexes=("ma",)), DS("ds2", T2, (2.0, 3.0, 4.0), megacomplexes=("mb",), scale=True)), megacomplexes={"ma": (("s1",), False), "mb": (("s1", "s2"), False)}, constraints=(("zero", "s2", None),), groups={"default": (True, VP)}))
     c.append(Cfg("linked_label_sets_differ_relation_everywhere", (DS("ds1", T3, (0.0, 1.0, 2.0), megacomplexes=("ma",)), DS("ds2", T2, (2.0, 3.0, 4.0), megacomplexes=("mb",))), megacomplexes={"ma": (("s1",), False), "mb": (("s1", "s2", "s3"), False)}, relations=(("s3", "s2", None),), groups={"default": (True, VP)}))
+    # three linked datasets with pairwise different label sets; one aligned index is shared by the second and third only, whose
+    # labels come in another order than over the whole group (first seen: s1 s2 s3; there: s2 s3 s1)
+    c.append(Cfg("three_linked_label_orders", (DS("d1", T2, (0.0, 1.0), megacomplexes=("ma",)), DS("d2", T3, (1.0, 2.0), megacomplexes=("mb",), scale=True), DS("d3", T2, (2.0, 3.0), megacomplexes=("mc",))), megacomplexes={"ma": (("s1", "s2"), False), "mb": (("s2", "s3"), False), "mc": (("s1", "s3"), False)}, groups={"default": (True, VP)}))
     c.append(Cfg("relation_source_absent_linked", (DS("ds1", T3, (0.0, 1.0)), DS("ds2", T2, (1.0, 2.0))), megacomplexes=M13, relations=(("sx", "s2", None),), groups={"default": (True, VP)}))
     # model weights
     c.append(Cfg("model_weight", (DS("ds1", T3, (0.0, 1.0, 2.0)), DS("ds2", T2, (0.0, 1.0))), model_weights=((("ds1",), (1.0, 2.0), (0.0, 1.0)), (("ds1", "ds2"), None, (1.0, INF))), groups={"default": (False, VP)}))
